@@ -25,6 +25,7 @@
 #include <set>
 #include <sstream>
 #include <unordered_map>
+#include <unordered_set>
 
 namespace ion {
 
@@ -116,6 +117,9 @@ struct Cfg {
   // exhausted, then again with pools just twice as large as that run needed,
   // so that slot indices wrap around and freed slots are reused at once
   bool tight_pools = false;
+  // how close to the measured occupancy the reduced pools are cut:
+  // 0: 2x + 32/64, 1: 1.25x + 8, 2: + 4 (plus the margin of the exhaustion guard)
+  int pool_slack = 0;
   // fraction of launched packets that the harness redirects onto lattice
   // directions (through cell corners and along cell edges), so that the edge
   // and corner hand-over classes, which random directions never produce, are
@@ -180,6 +184,7 @@ struct Cfg {
     j["tracker_variant"] = tracker_variant;
     j["fields_mask"] = fields_mask;
     j["tight_pools"] = tight_pools;
+    j["pool_slack"] = pool_slack;
     j["nbuffers"] = (long long)nbuffers;
     j["ntasks"] = (long long)ntasks;
     j["queue"] = (long long)queue;
@@ -228,6 +233,7 @@ struct Cfg {
     c.tracker_variant = (int)j.at("tracker_variant").as_int(0);
     c.fields_mask = (int)j.at("fields_mask").as_int(0);
     c.tight_pools = j.at("tight_pools").as_bool();
+    c.pool_slack = (int)j.at("pool_slack").as_int(0);
     c.nbuffers = j.at("nbuffers").as_int(0);
     c.ntasks = j.at("ntasks").as_int(0);
     c.queue = j.at("queue").as_int(0);
@@ -573,11 +579,27 @@ public:
   // `pool_margin` slots of its capacity the run is abandoned as inconclusive
   // (before get_free_buffer() can return "no slot").
   long pool_margin = 0; // 0 = guard off
+  bool check_lock_owner = true;
   bool pool_exhausted = false;
+  // subgrid locks seen as the dependency of a traversal task
+  std::unordered_set< const void * > dep_locks;
   virtual void on_atomic(const void *addr, int op, long pre, long post) {
     (void)pre;
     if (op < 0)
       return;
+    // lock discipline: the lock of a subgrid is released by the thread that
+    // holds it (a task slot that is given back before its dependency is
+    // unlocked can be reused in between: the late unlock then releases the
+    // lock of another task's subgrid)
+    if (op == CMI_VERIF_OP_UNLOCK && check_lock_owner && dep_locks.count(addr)) {
+      ++stats["subgrid_unlock_checks"];
+      const int holder = last_unlock_holder(), me = current_fiber();
+      if (holder != me)
+        fail("lock-not-held",
+             sfmt("thread %d released a subgrid lock that it does not hold "
+                  "(holder: %d): a task unlocked the dependency of another task",
+                  me, holder));
+    }
     // occupancy seen directly (the RHD driver resets the pool statistics
     // before its iteration-end record is taken)
     if (pool_buffers &&
@@ -974,6 +996,7 @@ public:
                                              : "reemit_tasks"];
       const int me = current_fiber();
       if (y == TASKTYPE_PHOTON_TRAVERSAL && b != nullptr) {
+        dep_locks.insert((const void *)((SG *)b)->get_dependency());
         const int holder = lock_holder(((SG *)b)->get_dependency());
         ++stats["subgrid_lock_checks"];
         if (holder != me) {
